@@ -272,6 +272,10 @@ def classify_box(ops, res):
         fam = next((o.split()[1] for o in ops if o.startswith("mlnew")), "?")
     if res.oracle:
         tags = sorted({m for l in res.oracle for m in re.findall(r"!oracle (\S+)", l)})
+        if tags == ["shrink-deactivated-violator"] and res.diff_at is None and not res.crash:
+            return (f"F-C16-4:simplex-shrink-deactivates-violator:{fam}",
+                    "QpMcSimplexDecomp::shrink deactivated a variable that violates the KKT conditions (varsum snapped to 0, alpha tiny but positive, "
+                    f"negative gradient): the solve loop cannot make progress from there; ops {ops}")
         if tags == ["ml-gain-mismatch"] and fam in ("CS", "ADM", "ATM") and res.diff_at is None and not res.crash:
             return (f"F-C16-L1:mclinear-two-variable-gain:{fam}",
                     f"QpMcLinear{fam}::solveSub returns a gain that is not the change of the dual objective (two-variable step); ops {ops}")
@@ -559,6 +563,10 @@ def check_linear_vs_kernel(ctx, exe, ds, F, C, eps):
     if rc != 0 or len(res) != 3:
         m = re.search(r"ERROR: AddressSanitizer: (\S+)|runtime error: ([^\n]*)", err)
         return f"crash:ltrain:{(m.group(1) or m.group(2)) if m else 'abort'}:{F}", f"linear trainer harness aborted: {err[-400:]}", ops
+    if res[0]["oracle"] == ["solver-did-not-reach-accuracy"] and F in SIMPLEX and k > 2 and int(res[0].get("iters", "0")) >= ITER_CAP:
+        return (f"F-C16-4:simplex-solver-stalls:{F}",
+                f"QpMcSimplexDecomp stalls (linear kernel, no offset, shrinking on): {res[0].get('iters')} iterations, "
+                f"recomputed KKT violation {res[0].get('kkt', '?')} (eps {eps}), dual value {res[0].get('value')}", ops)
     for rr in res:
         if rr["oracle"]:
             return f"oracle:{'+'.join(sorted(set(rr['oracle'])))}:{F}", f"oracle failed: {rr['raw'][-300:]}", ops
